@@ -1,4 +1,216 @@
 package opmatrix
 
-// StartText renders the _start function of a C02 module (see start.go).
-func StartText(c *Case) string { return "" }
+import (
+	"fmt"
+	"sort"
+	"strings"
+)
+
+// StartMarker is printed first by every C02 module through print_str.
+const StartMarker = "opm-start\n"
+
+// StartDataOffset is where the marker string lives in linear memory.
+const StartDataOffset = 512
+
+// startHelpers are appended to the prelude of C02 modules.
+const startHelpers = `(func $memhash (result i64)
+  (local $i i32)
+  (local $n i32)
+  (local $h1 i32)
+  (local $h2 i32)
+  (local $c i32)
+  i32.const -2128831035
+  local.set $h1
+  i32.const -1756908916
+  local.set $h2
+  memory.size
+  i32.const 16
+  i32.shl
+  local.set $n
+  block $X
+    loop $L
+      local.get $i
+      local.get $n
+      i32.ge_u
+      br_if $X
+      local.get $i
+      i32.load8_u
+      local.set $c
+      local.get $h1
+      local.get $c
+      i32.xor
+      i32.const 16777619
+      i32.mul
+      local.set $h1
+      local.get $h2
+      local.get $c
+      i32.add
+      i32.const 1
+      i32.add
+      i32.const -2048144789
+      i32.mul
+      local.set $h2
+      local.get $i
+      i32.const 1
+      i32.add
+      local.set $i
+      br $L
+    end
+  end
+  local.get $h1
+  i64.extend_i32_u
+  i64.const 32
+  i64.shl
+  local.get $h2
+  i64.extend_i32_u
+  i64.or
+)
+(func $out (param $v i64)
+  local.get $v
+  call $print_i64
+  i32.const 10
+  call $print_rune
+)
+(func $out_f (param $v f32) (param $exact i32)
+  local.get $exact
+  i32.eqz
+  if $I
+    local.get $v
+    local.get $v
+    f32.ne
+    if $J
+      i64.const 2143289344
+      call $out
+      return
+    end
+  end
+  local.get $v
+  i32.reinterpret_f32
+  i64.extend_i32_u
+  call $out
+)
+(func $out_F (param $v f64) (param $exact i32)
+  local.get $exact
+  i32.eqz
+  if $I
+    local.get $v
+    local.get $v
+    f64.ne
+    if $J
+      i64.const 9221120237041090560
+      call $out
+      return
+    end
+  end
+  local.get $v
+  i64.reinterpret_f64
+  call $out
+)
+`
+
+// LinesOf tells how many output lines call k of the script prints.
+func LinesOf(f *Func) int {
+	n := len(f.Results)
+	if f.Stateful {
+		n += 2
+	}
+	return n
+}
+
+// OrderForStart moves the calls that are likely to trap to the end of the
+// script (a trap ends a native process), keeping everything else in order,
+// and keeps at most maxTraps of them.
+func OrderForStart(c *Case, maxTraps int) {
+	var normal, trappy []Call
+	for _, call := range c.Calls {
+		f := &c.Funcs[call.F]
+		likely := TrapExpected(call.Class)
+		if call.Class == "nan" && !strings.Contains(f.Op, ".trunc_f") {
+			likely = false
+		}
+		if likely {
+			trappy = append(trappy, call)
+		} else {
+			normal = append(normal, call)
+		}
+	}
+	if len(trappy) > maxTraps {
+		trappy = trappy[:maxTraps]
+	}
+	sort.SliceStable(trappy, func(i, j int) bool { return false })
+	c.Calls = append(normal, trappy...)
+}
+
+// StartText renders the _start function: the whole call script with immediate
+// arguments; every result is printed as one decimal i64 line (floats as bit
+// patterns, NaNs canonicalised unless the function is Exact); after a
+// stateful call the memory hash and the page count are printed too.
+func StartText(c *Case) string {
+	var sb strings.Builder
+	sb.WriteString(startHelpers)
+	sb.WriteString("(func $_start (export \"_start\")\n")
+	for _, t := range "iIfF" {
+		for k := 0; k < 2; k++ {
+			fmt.Fprintf(&sb, "  (local $r%c%d %s)\n", t, k, WT(byte(t)))
+		}
+	}
+	w := func(s string) { sb.WriteString("  " + s + "\n") }
+	w(fmt.Sprintf("i32.const %d", StartDataOffset))
+	w(fmt.Sprintf("i32.const %d", len(StartMarker)))
+	w("call $print_str")
+	for _, call := range c.Calls {
+		f := &c.Funcs[call.F]
+		args := call.Raw()
+		for i := 0; i < len(f.Params); i++ {
+			switch f.Params[i] {
+			case 'i':
+				w(fmt.Sprintf("i32.const %d", int32(uint32(args[i]))))
+			case 'I':
+				w(fmt.Sprintf("i64.const %d", int64(args[i])))
+			case 'f':
+				w(fmt.Sprintf("i32.const %d", int32(uint32(args[i]))))
+				w("f32.reinterpret_i32")
+			case 'F':
+				w(fmt.Sprintf("i64.const %d", int64(args[i])))
+				w("f64.reinterpret_i64")
+			}
+		}
+		w("call $" + f.Name)
+		for i := len(f.Results) - 1; i >= 0; i-- {
+			w(fmt.Sprintf("local.set $r%c%d", f.Results[i], i))
+		}
+		exact := 0
+		if f.Exact {
+			exact = 1
+		}
+		for i := 0; i < len(f.Results); i++ {
+			w(fmt.Sprintf("local.get $r%c%d", f.Results[i], i))
+			switch f.Results[i] {
+			case 'i':
+				w("i64.extend_i32_u")
+				w("call $out")
+			case 'I':
+				w("call $out")
+			case 'f':
+				w(fmt.Sprintf("i32.const %d", exact))
+				w("call $out_f")
+			case 'F':
+				w(fmt.Sprintf("i32.const %d", exact))
+				w("call $out_F")
+			}
+		}
+		if f.Stateful {
+			w("call $memhash")
+			w("call $out")
+			w("memory.size")
+			w("i64.extend_i32_u")
+			w("call $out")
+		}
+	}
+	if c.ExitCode >= 0 {
+		w(fmt.Sprintf("i32.const %d", c.ExitCode))
+		w("call $proc_exit")
+	}
+	sb.WriteString(")\n")
+	return sb.String()
+}
